@@ -97,6 +97,7 @@ func (c *wsConnection) subscribe(ctx context.Context, id string, req *common.Req
 	subscribeCtx, subscribeCancel := context.WithTimeout(ctx, c.writeTimeout)
 	defer subscribeCancel()
 
+	verifYield("ws.subscribe.beforeWrite", id)
 	if err := c.protocol.Subscribe(subscribeCtx, c.conn, id, req); err != nil {
 		c.log.Error("wsConnection.Subscribe",
 			abstractlogger.String("id", id),
